@@ -392,6 +392,11 @@ func load(cmdline, environ, envprefix []string, props *properties.Properties) (c
 		}
 	}
 
+	// the path is the ServeMux pattern of the prometheus listener
+	if err := checkPrometheusPath(cfg.Metrics.Prometheus.Path); err != nil {
+		return nil, fmt.Errorf("invalid metrics.prometheus.path %q: %s", cfg.Metrics.Prometheus.Path, err)
+	}
+
 	if cfg.Registry.Consul.AllowStale && cfg.Registry.Consul.RequireConsistent {
 		return nil, fmt.Errorf("registry.consul.allowStale and registry.consul.requireConsistent cannot both be true")
 	}
@@ -425,6 +430,27 @@ func load(cmdline, environ, envprefix []string, props *properties.Properties) (c
 	}
 
 	return cfg, nil
+}
+
+// checkPrometheusPath checks that the path can be registered the way the
+// prometheus listener does. http.ServeMux panics on a pattern it cannot
+// parse (no leading slash, white space, unbalanced braces) or which
+// conflicts with the redirect on "/".
+func checkPrometheusPath(path string) (err error) {
+	if !strings.HasPrefix(path, "/") {
+		return errors.New("path must begin with '/'")
+	}
+	defer func() {
+		if r := recover(); r != nil {
+			err = fmt.Errorf("%v", r)
+		}
+	}()
+	mux := http.NewServeMux()
+	if path != "/" {
+		mux.Handle("/", http.NotFoundHandler())
+	}
+	mux.Handle(path, http.NotFoundHandler())
+	return nil
 }
 
 // parseScheme splits a url into scheme and address and defaults
